@@ -612,3 +612,61 @@ func (p *Program) Callers(fn *ssa.Function) []*callgraph.Edge {
 	})
 	return in
 }
+
+// FieldPath decomposes v = root.f1.f2...fn (loads of fields through pointers or struct values).
+// The root is returned unwrapped (spill cells and conversions removed).
+func FieldPath(v ssa.Value) (root ssa.Value, path []string) {
+	for i := 0; i < 16; i++ {
+		b, f, ok := LoadedField(v)
+		if !ok {
+			break
+		}
+		path = append([]string{f.Name()}, path...)
+		v = b
+	}
+	return Unwrap(v), path
+}
+
+// IsPath: v is root.f1...fn.
+func IsPath(v ssa.Value, root ssa.Value, names ...string) bool {
+	r, p := FieldPath(v)
+	if r != Unwrap(root) || len(p) != len(names) {
+		return false
+	}
+	for i := range p {
+		if p[i] != names[i] {
+			return false
+		}
+	}
+	return true
+}
+
+// MentionsField: the expression tree of v (through arithmetic and conversions) contains a load of a
+// field named `name`.
+func MentionsField(v ssa.Value, name string, depth int) bool {
+	if depth > 12 || v == nil {
+		return false
+	}
+	if _, f, ok := LoadedField(v); ok && f.Name() == name {
+		return true
+	}
+	switch x := v.(type) {
+	case *ssa.BinOp:
+		return MentionsField(x.X, name, depth+1) || MentionsField(x.Y, name, depth+1)
+	case *ssa.Convert:
+		return MentionsField(x.X, name, depth+1)
+	case *ssa.ChangeType:
+		return MentionsField(x.X, name, depth+1)
+	case *ssa.UnOp:
+		if x.Op != token.MUL {
+			return MentionsField(x.X, name, depth+1)
+		}
+	case *ssa.Phi:
+		for _, e := range x.Edges {
+			if MentionsField(e, name, depth+1) {
+				return true
+			}
+		}
+	}
+	return false
+}
